@@ -17,6 +17,7 @@ Scenario (dict):
   runs       number of consecutive run_forever calls (default 1)
   app_kw     further keyword arguments of WebSocketApp (header, cookie, subprotocols); header_callable: True makes the
              header option a function that returns the static lines + "X-Seq: <number of the evaluation>"
+  cb_style   "partial" | "object": the callbacks are functools.partial objects / instances with __call__ (no __name__)
   trace      enableTrace(True) with a null handler for the duration of the scenario
   global_reconnect  websocket.setReconnect(x) instead of run_forever(reconnect=x)
   tls        wss:// with the record-buffering fake TLS socket
@@ -404,6 +405,20 @@ def run_app(sc, schedule=None, seed=None, line_preempt=None):
     table = {"cont_message": on_cont_message, "open": on_open, "reconnect": on_reconnect, "message": on_message, "data": on_data, "error": on_error,
              "close": on_close, "ping": on_ping, "pong": on_pong}
     kw = {"on_" + n: table[n] for n in cbs}
+    style = sc.get("cb_style")
+    if style == "partial":            # callables without __name__ / __qualname__
+        import functools
+        kw = {k: functools.partial(v) for k, v in kw.items()}
+    elif style == "object":
+        class _Cb:
+            __slots__ = ("f",)
+
+            def __init__(self, f):
+                self.f = f
+
+            def __call__(self, *a):
+                return self.f(*a)
+        kw = {k: _Cb(v) for k, v in kw.items()}
     akw = dict(sc.get("app_kw", {}))
     if akw.pop("header_callable", None):
         # a callable header option: evaluated for every opening handshake (X-Seq counts the evaluations)
